@@ -313,7 +313,12 @@ func checkC04(c *Ctx) {
 			c.Rep.Fatal(err.Error())
 			return
 		}
-		p := c.NewPool(1)
+		p := c.NewPool(3)
+		if strings.Contains(string(raw), `"fam":"project"`) {
+			scSeed = c.Seed
+			projHistoryRuns(c, p, 0, []json.RawMessage{raw})
+			return
+		}
 		if strings.Contains(string(raw), `"fam":"modules"`) {
 			jb := modBuild(c.Seed)(1, raw)
 			jb.Raw = raw
@@ -411,6 +416,13 @@ func checkC04(c *Ctx) {
 		}
 	}
 	c.Rep.Exhaustive = true
+	// ranges after edits in project mode: Project.tla workspaces (every second one with two entry files), one file edited and
+	// saved twice; what the client holds (diagnostic ranges included) and the definition ranges must be those of a fresh
+	// server on the files as they then are -- a range kept from the text before the edit is a range outside the current text
+	if c.Replay == "" {
+		scSeed = c.Seed
+		projHistoryRuns(c, p, 4, nil)
+	}
 	c.poolStats(p)
 	if surveyMode {
 		sv.dump()
